@@ -222,6 +222,9 @@ func (vc *VC) merge(ins []edgeState, hint string, cellType func(*ssa.Alloc) type
 			if s, has := vc.eng.ghostSorts[g]; has {
 				srt = s
 			}
+			if s, has := vc.ghostLocalSorts[g]; has {
+				srt = s
+			}
 			res.ghost[g] = pick(srt, vals, "m_ghost")
 		}
 	}
